@@ -22,7 +22,7 @@ RULE = ("(a) exhaustive: all call sequences of length <= 3 over 6 actions x cate
         "(broker, category, budget, sequence); trivial = none")
 ASSUMPTIONS = ["Redis and RabbitMQ are wire-level fakes", "broker calls are counted by harness-side recorders at the broker boundary (top level only)"]
 EVAL_COUNTER = "calls_judged"
-REQUIRED = ["calls_judged", "refusals_checked", "second_actions_checked", "eager_sequences", "callback_orders_checked", "eager_in_dependency", "sequences_with_refused_retry", "category_by_plain_name", "overdrawn_handles", "sequences_with_failing_callback", "sequences_repeating_an_equal_outcome"]
+REQUIRED = ["calls_judged", "refusals_checked", "second_actions_checked", "eager_sequences", "callback_orders_checked", "eager_in_dependency", "sequences_with_refused_retry", "category_by_plain_name", "overdrawn_handles", "sequences_with_failing_callback", "sequences_repeating_an_equal_outcome", "failed_attempts_before_the_sequence"]
 CASE_TIMEOUT = 120
 
 ACTIONS = ("ack", "nack", "reject", "reschedule", "retry", "force_retry")
@@ -39,6 +39,11 @@ def gen_cases(tier, seed):
                 chunk = 43 if kind == "mem" else 42
                 for i in range(0, len(seqs), chunk):
                     cases.append({"type": "api", "kind": kind, "cat": cat, "budget": budget, "seqs": [list(s) for s in seqs[i:i + chunk]]})
+    # the same sequences after an attempt that failed on its way to the broker
+    for kind in ("mem", "redis", "rabbit"):
+        short = [list(s) for n in (1, 2) for s in itertools.product(ACTIONS, repeat=n)]
+        for prelude in ("overflow", "fault"):
+            cases.append({"type": "api", "kind": kind, "cat": "NORMAL", "budget": "left", "seqs": short if tier == "thorough" or kind == "mem" else short[:12], "prelude": prelude})
     maxpre = 3 if tier == "quick" else 4
     pres = [p for n in range(0, maxpre + 1) for p in itertools.product("RESA", repeat=n)]
     # ... and with a refused retry ("X": budget spent, ValueError caught, the handle stays usable) somewhere in between
@@ -62,7 +67,7 @@ def V(rule, kind, ctx, detail):
     return {"rule": rule, "broker": kind, "context": ctx, "detail": detail}
 
 
-async def api_sequence(loop, kind, cat, budget, seq, out, stats, fps):
+async def api_sequence(loop, kind, cat, budget, seq, out, stats, fps, prelude=None):
     from repid import Queue
     from repid.message import MessageCategory
     from rv.rigs import Rig
@@ -101,6 +106,42 @@ async def api_sequence(loop, kind, cat, budget, seq, out, stats, fps):
             budget = "spent"
         used = False
         ctxb = f"{cat}/{budget}"
+        if prelude is not None:
+            # an attempt that does not go through - the broker is told nothing - leaves the handle as it was
+            n0 = len(rig.log.events)
+            what = None
+            if prelude == "overflow":
+                try:
+                    await msg.retry(timedelta.max)
+                    what = "retry(timedelta.max) succeeded"
+                except OverflowError:
+                    pass
+                except Exception as e:  # noqa: BLE001
+                    what = f"retry(timedelta.max) raised {type(e).__name__}: {e}"
+            else:
+                first = seq[0]
+                mw = getattr(mb, BROKER_OP[first])
+                orig_fn = mw.fn
+
+                async def down(*a, **k):
+                    raise ConnectionError("broker is down (injected)")
+
+                mw.fn = down
+                try:
+                    await getattr(msg, first)()
+                    what = f"{first}() succeeded although the broker call raised"
+                except ConnectionError:
+                    pass
+                except Exception as e:  # noqa: BLE001
+                    what = f"{first}() with the broker down raised {type(e).__name__}: {e}"
+                finally:
+                    mw.fn = orig_fn
+            stats["failed_attempts_before_the_sequence"] += 1
+            if what is not None:
+                out.append(V("wrong_exception", kind, f"failed-attempt/{prelude}", f"{what} ({ctxb})"))
+            elif msg.read_only:
+                out.append(V("refusal_consumed_handle", kind, f"failed-attempt/{prelude}", f"an action on a {cat} message failed before the broker was told anything ({'next_retry=timedelta.max' if prelude == 'overflow' else 'the broker call raised ConnectionError'}); "
+                                                                                          f"no action has succeeded, yet the handle is read-only"))
         for i, action in enumerate(seq):
             n0 = len(rig.log.events)
             err = None
@@ -311,7 +352,7 @@ def run_case(case):
     out, fps, samples = [], set(), []
     if case["type"] == "api":
         for seq in case["seqs"]:
-            res = vl.run(lambda loop, seq=seq: api_sequence(loop, case["kind"], case["cat"], case["budget"], seq, out, stats, fps), max_steps=500_000, seed=1)
+            res = vl.run(lambda loop, seq=seq: api_sequence(loop, case["kind"], case["cat"], case["budget"], seq, out, stats, fps, prelude=case.get("prelude")), max_steps=500_000, seed=1)
             if res.exc is not None:
                 out.append(V("harness_or_api_error", case["kind"], "api", f"{seq}: {type(res.exc).__name__}: {res.exc}"))
     else:
